@@ -42,6 +42,8 @@ def dress(U):
         t.start = None if i % 2 else _dt.datetime(2024, 1, 1 + i)
         t.min_start = _dt.datetime(2024, 2, 1) if i % 3 == 0 else None
         t.note = None if i % 2 else ""
+        if i % 2 == 0:
+            t.print = False          # a custom attribute called like a member of Task is a custom attribute
 
 
 def states(ids, W, max_states, log):
